@@ -133,6 +133,10 @@ pub async fn insert_async<'a>(cache: &'a Path, key: &'a str, opts: WriteOpts) ->
         .with_context(|| format!("Failed to create or open index bucket at {bucket:?}"))?;
 
     let out = format!("\n{}\t{}", hash_entry(&stringified), stringified);
+    // A record must reach the bucket in a single append: concurrent writers rely on it.
+    // tokio's `File` hands at most `max_buf_size` bytes (2 MiB by default) to one `write(2)`.
+    #[cfg(feature = "tokio")]
+    buck.set_max_buf_size(out.len().max(1));
     buck.write_all(out.as_bytes())
         .await
         .with_context(|| format!("Failed to write to index bucket at {bucket:?}"))?;
